@@ -97,6 +97,7 @@ fn cfgs(quick: bool) -> Vec<(Cfg, usize)> {
 
 fn main() {
     let ctx = Ctx::from_args("C34");
+    start_watchdog(&ctx.id);
     let mut rep = Report::new();
     let stats: Stats = Mutex::new(Default::default());
     if let Some(case) = ctx.replay_case() {
